@@ -17,6 +17,7 @@
   counterexamples below are evaluated on the model and replayed on real generated code by the check.
 -/
 import Cog.Sem.RoundTrip
+import Cog.Sem.DenMono
 namespace Cog.Sem
 open Cog.IR GoVal
 
@@ -26,6 +27,13 @@ theorem C01_codec_roundtrip_partial (ss : Schemas) (n : Nat) (t : Ty) (j : Json)
     ∃ v, goDecode n ss t j = .ok v ∧ Json.eqv (goEncode v) j = true := by
   obtain ⟨v, hv, g⟩ := roundtrip_core ss n t j h
   exact ⟨v, hv, by simp [Json.eqv, g.enc_sub, g.sub_enc]⟩
+
+/-- Fuel-free reading: a document in the document language at SOME fuel round-trips at EVERY
+    larger fuel (the fuel only bounds how deep references are unfolded). -/
+theorem C01_codec_roundtrip_any_fuel_partial (ss : Schemas) (n : Nat) (t : Ty) (j : Json)
+    (h : den n ss t j = true) (m : Nat) (hm : n ≤ m) :
+    ∃ v, goDecode m ss t j = .ok v ∧ Json.eqv (goEncode v) j = true :=
+  C01_codec_roundtrip_partial ss m t j (den_mono_le ss n m hm t j h)
 
 /-- The same for a named object (what the lab driver's `dec` does). -/
 theorem C01_object_roundtrip_partial (ss : Schemas) (n : Nat) (pkg name : String) (j : Json)
